@@ -107,4 +107,76 @@ theorem observation_keeps (g : Nat → Nat) (gb : Nat → Nat → Nat) {r : Msg}
         simp only [pure, Except.pure]
         exact ⟨(r.mem, none), rfl, by simp, by intro kept h; cases h⟩
 
+def kindName : ReqKind → String
+  | .get => "get" | .post => "post" | .put => "put" | .delete => "delete" | .observe => "observe"
+
+/-- The request builders: never a runtime panic; refused exactly for a path with a segment over 255 bytes; otherwise
+the built request carries the caller's options (stable sort), the path, Content-Format for a POST/PUT with payload, and
+for an observe request exactly one Observe option with value 0 whatever the caller's options contain. -/
+theorem buildRequest_spec (g : Nat → Nat) (gb : Nat → Nat → Nat) (m : Mem) (k : ReqKind) (p : Bytes) (cf : Nat)
+    (hcf : cf < 65536) (hasBody : Bool) (inp : List Item) :
+    ∃ m', buildRequest g gb m k p cf hasBody inp = .ok (m', requestOptions (kindName k) p cf hasBody inp) := by
+  have hinv0 := msgInv_new m newMessageOptionsCap
+  have hi0 : items (Msg.new m newMessageOptionsCap).mem (Msg.new m newMessageOptionsCap).opts = [] := by
+    simp [items, Msg.new, Mem.alloc, Options.make, Options.toList, mapVal]
+  unfold buildRequest
+  simp only [newObserveRequestSetsObserve, not_true_eq_false, and_false, if_false, and_true]
+  obtain ⟨r1, s1, inv1, it1, _⟩ := step_spec g gb hinv0 (.resetTo inp)
+  rw [hi0] at it1
+  simp only [bind, Except.bind, s1]
+  obtain ⟨r2, e, s2, inv2, _, h4⟩ := msg_setPath_spec g gb inv1 p
+  rw [s2]
+  simp only []
+  unfold requestOptions
+  have it1' : items r1.mem r1.opts = resetTo inp := it1
+  rw [it1'] at h4
+  cases hsp : Spec.SortedMultiset.setPath uriPathId p (resetTo inp) with
+  | none =>
+    rw [hsp] at h4; simp only [] at h4
+    rw [h4.1]
+    exact ⟨r2.mem, rfl⟩
+  | some l' =>
+    rw [hsp] at h4; simp only [] at h4
+    obtain ⟨he, hi2⟩ := h4
+    subst he
+    simp only [Option.map_some]
+    -- Content-Format
+    obtain ⟨r3, s3, inv3, it3⟩ : ∃ r3, (if hasBody = true ∧ (k = .post ∨ k = .put) then r2.step g gb (.setUint32 contentFormat cf)
+        else pure r2 : M Msg) = .ok r3 ∧ MsgInv r3 ∧
+        items r3.mem r3.opts = (if hasBody = true ∧ (kindName k = "post" ∨ kindName k = "put")
+          then Spec.SortedMultiset.set (contentFormatId, uintBytes (cf % 65536)) l' else l') := by
+      by_cases c : hasBody = true ∧ (k = .post ∨ k = .put)
+      · obtain ⟨r3, a1, a2, a3, _⟩ := step_spec g gb inv2 (.setUint32 contentFormat cf)
+        have c' : hasBody = true ∧ (kindName k = "post" ∨ kindName k = "put") := by
+          refine ⟨c.1, ?_⟩
+          rcases c.2 with h | h <;> subst h <;> simp [kindName]
+        refine ⟨r3, by simp only [c, and_self, if_true]; exact a1, a2, ?_⟩
+        rw [a3, hi2]
+        have e : contentFormat = contentFormatId := by decide
+        simp only [specStep, c', and_self, if_true, e, Nat.mod_eq_of_lt hcf]
+      · have c' : ¬ (hasBody = true ∧ (kindName k = "post" ∨ kindName k = "put")) := by
+          intro h
+          apply c
+          refine ⟨h.1, ?_⟩
+          cases k <;> simp [kindName] at h ⊢
+        exact ⟨r2, by simp only [c, if_false]; rfl, inv2, by simp only [c', if_false]; exact hi2⟩
+    rw [s3]
+    simp only []
+    by_cases ck : k = .observe
+    · subst ck
+      obtain ⟨r4, a1, _, a3, _⟩ := step_spec g gb inv3 (.setUint32 observe 0)
+      simp only [if_true, a1, pure, Except.pure]
+      refine ⟨r4.mem, ?_⟩
+      have e : observe = observeId := by decide
+      have hu : uintBytes 0 = [] := by decide
+      have hit : r4.items = items r4.mem r4.opts := rfl
+      rw [hit, a3, it3]
+      simp [specStep, kindName, e, hu]
+    · simp only [ck, if_false, pure, Except.pure]
+      refine ⟨r3.mem, ?_⟩
+      have : ¬ (kindName k = "observe") := by cases k <;> simp [kindName] at ck ⊢
+      have hit : r3.items = items r3.mem r3.opts := rfl
+      rw [hit, it3]
+      simp [this]
+
 end CoapVerif.Lemmas.OptionGlueModel
